@@ -107,6 +107,51 @@ pub fn generate(rng: &mut Rng, tier: Tier, emit: &mut dyn FnMut(String)) {
             }
         }
     }
+    // BATCH: the batch's flag vs. its members' flags in every combination, through Session::batch and CachingSession::batch,
+    // with unprepared and prepared members: unmarked batch x {all, some, no} members marked; marked batch x members unmarked
+    {
+        let mut k = 0u64;
+        for (idem, bms) in [(0u64, vec!["11", "10", "01", "00", "111", "010"]), (1, vec!["00", "10", "000"])] {
+            for bm in bms {
+                for (via, kind) in [("session", "query"), ("session", "exec"), ("caching", "query")] {
+                    if tier == Tier::Quick && (k % 27) % 2 == 1 && bm.len() == 3 {
+                        k += 1;
+                        continue;
+                    }
+                    emit(format!(
+                        "e2e spec n=3 sh={} idem={} max=2 iv=25 slow=0 kind={} api=batch bm={} via={} seed={}",
+                        if k % 5 == 4 { 2 } else { 0 }, idem, kind, bm, via, seed + 100 + k
+                    ));
+                    k += 1;
+                }
+            }
+        }
+    }
+    // the speculative policy on the STATEMENT's profile (max 1) while the session default carries another one (max 3) or
+    // none, directly or through map_to_another_profile; paged, unpaged and batch; 4 nodes so that a wrong policy shows
+    {
+        let mut k = 0u64;
+        for prof in ["stmt:3", "remap:3", "stmt:-", "remap:-"] {
+            for (api, kind, slow) in [("iter", "exec", 1u64), ("iter", "query", 2), ("unpaged", "query", 0), ("unpaged", "exec", 0), ("batch", "query", 0)] {
+                if tier == Tier::Quick && k % 2 == 1 {
+                    k += 1;
+                    continue;
+                }
+                emit(format!(
+                    "e2e spec n=4 sh=0 idem=1 max=1 iv=25 slow={} kind={} api={} prof={} seed={}",
+                    slow, kind, api, prof, seed + 200 + k
+                ));
+                k += 1;
+            }
+        }
+    }
+    // other entry points: CachingSession::execute_unpaged / execute_iter, query_unpaged / query_iter WITH values
+    for idem in [0u64, 1] {
+        emit(format!("e2e spec n=3 sh=0 idem={} max=2 iv=25 slow=0 kind=query api=unpaged via=caching seed={}", idem, seed + 300 + idem));
+        emit(format!("e2e spec n=3 sh=0 idem={} max=2 iv=25 slow=1 kind=query via=caching seed={}", idem, seed + 310 + idem));
+        emit(format!("e2e spec n=3 sh=0 idem={} max=2 iv=25 slow=0 kind=query api=unpaged vals=1 seed={}", idem, seed + 320 + idem));
+        emit(format!("e2e spec n=3 sh=0 idem={} max=2 iv=25 slow=1 kind=query vals=1 seed={}", idem, seed + 330 + idem));
+    }
     if tier == Tier::Thorough {
         for _ in 0..20 {
             let n = 1 + rng.below(3);
@@ -131,7 +176,7 @@ pub fn generate(rng: &mut Rng, tier: Tier, emit: &mut dyn FnMut(String)) {
 }
 
 /// One request for a page: (page, node, server-side shard of the connection).
-type Seen = (usize, usize, Option<u16>);
+type Seen = (usize, usize, Option<u16>, std::time::Instant);
 
 pub fn run(words: &[&str], ctx: &mut Ctx) -> String {
     run_mode(words, ctx, false)
@@ -262,7 +307,7 @@ fn run_mode(words: &[&str], ctx: &mut Ctx, detail: bool) -> String {
             Parsed::Query { text, params } if text == SELECT_ALL => params,
             Parsed::Execute { params, .. } => params,
             Parsed::Batch { .. } => {
-                seen_h.lock().unwrap().push((0, r.node, r.shard));
+                seen_h.lock().unwrap().push((0, r.node, r.shard, r.at));
                 return if slow_page == 0 { vec![Act::Delay(hold), act_void()] } else { vec![act_void()] };
             }
             _ => return vec![act_void()],
@@ -274,7 +319,7 @@ fn run_mode(words: &[&str], ctx: &mut Ctx, detail: bool) -> String {
                 None => return vec![act_error(0x2200, "unknown paging state", &[])],
             },
         };
-        seen_h.lock().unwrap().push((j, r.node, r.shard));
+        seen_h.lock().unwrap().push((j, r.node, r.shard, r.at));
         let rows: Vec<Vec<Cell>> = pages_h[j].iter().map(|i| vec![Some(i.to_be_bytes().to_vec()), c_int(*i)]).collect();
         let next_state = if unpaged { None } else { states_h.get(j).map(|s| &s[..]) };
         let resp = Act::Respond(RESP_RESULT, rows_body(&row_specs(), !params.skip_metadata, next_state, &rows));
@@ -383,7 +428,7 @@ fn run_mode(words: &[&str], ctx: &mut Ctx, detail: bool) -> String {
             };
             tokio::time::sleep(Duration::from_millis(20)).await;
             let seen = seen.lock().unwrap().clone();
-            let what = format!("n={} sh={} idem={} max={} api={} kind={} via={} bm={:?} prof={} lb={} seen(page,node,shard)={:?}", n, sh, idem, max, api, kind, via, bm, prof, lb, seen);
+            let what = format!("n={} sh={} idem={} max={} api={} kind={} via={} bm={:?} prof={} lb={} seen(page,node,shard)={:?}", n, sh, idem, max, api, kind, via, bm, prof, lb, seen.iter().map(|s| (s.0, s.1, s.2)).collect::<Vec<_>>());
             if let Err(e) = res {
                 ctx.fail(format!("e2e spec: the unpaged request failed ({}); {}", e.replace(['\n', '\t'], " "), what));
             }
@@ -456,7 +501,7 @@ fn run_mode(words: &[&str], ctx: &mut Ctx, detail: bool) -> String {
         tokio::time::sleep(Duration::from_millis(20)).await;
         // ------------------------------------------------------------------ oracle
         let seen = seen.lock().unwrap().clone();
-        let what = format!("n={} sh={} idem={} max={} slow={} kind={} via={} prof={} lb={} seen(page,node,shard)={:?}", n, sh, idem, max, slow, kind, via, prof, lb, seen);
+        let what = format!("n={} sh={} idem={} max={} slow={} kind={} via={} prof={} lb={} seen(page,node,shard)={:?}", n, sh, idem, max, slow, kind, via, prof, lb, seen.iter().map(|s| (s.0, s.1, s.2)).collect::<Vec<_>>());
         if failed || got != vec![0, 1, 2, 3, 4, 5] {
             ctx.fail(format!("e2e spec: the stream {} with rows {:?}; {}", if failed { "failed" } else { "ended" }, got, what));
         }
@@ -507,7 +552,19 @@ fn run_mode(words: &[&str], ctx: &mut Ctx, detail: bool) -> String {
                     .collect();
                 if t.is_empty() { "-".to_owned() } else { t.join(",") }
             };
-            return format!("pages={}/{}/{}", page(0), page(1), page(2));
+            // `timing=ok`: the k-th request of every page arrived no later than k * iv + 100 ms after the first one (the
+            // timers ran on time, so with the 150 ms slack of the hold every execution the policy allows was started and the
+            // first one answered first); otherwise `timing=stalled` and the model only demands a prefix
+            let mut ok = true;
+            for j in 0..3usize {
+                let at: Vec<std::time::Instant> = seen.iter().filter(|s| s.0 == j).map(|s| s.3).collect();
+                for (k, t) in at.iter().enumerate() {
+                    if t.duration_since(at[0]) > Duration::from_millis(k as u64 * iv + 100) {
+                        ok = false;
+                    }
+                }
+            }
+            return format!("pages={}/{}/{} timing={}", page(0), page(1), page(2), if ok { "ok" } else { "stalled" });
         }
         format!("spec rows={} requests={} {}", got.len(), per_page.iter().map(|c| c.to_string()).collect::<Vec<_>>().join("."), if failed { "err" } else { "end" })
     })
